@@ -337,11 +337,13 @@ class kMinPathError(pathmodel.AbstractPathModelDAG):
         # gamma vars from https://helda.helsinki.fi/server/api/core/bitstreams/96693568-d973-4b43-a68f-bc796bbeb225/content
         # We will encode that edge_vars[(u,v,i)] * self.path_slacks_vars[(i)] = self.gamma_vars[(u,v,i)],
         # assuming self.w_max is a bound for self.path_slacks_vars[(i)]
+        # gamma = x * (scaled) slack: with path length factors the scaled slack can reach w_max * max(factors)
+        gamma_ub = self.w_max * max([1] + list(self.path_length_factors))
         self.gamma_vars = self.solver.add_variables(
             self.edge_indexes,
             name_prefix="gamma",
             lb=0,
-            ub=self.w_max,
+            ub=gamma_ub,
             var_type="continuous",
         )
 
@@ -438,7 +440,7 @@ class kMinPathError(pathmodel.AbstractPathModelDAG):
                         continuous_var=slack_var,
                         product_var=self.gamma_vars[(u, v, i)],
                         lb=0,
-                        ub=self.w_max,
+                        ub=gamma_ub,
                         name=f"12_u={u}_v={v}_i={i}",
                     )
 
@@ -482,11 +484,13 @@ class kMinPathError(pathmodel.AbstractPathModelDAG):
         # gamma vars from https://helda.helsinki.fi/server/api/core/bitstreams/96693568-d973-4b43-a68f-bc796bbeb225/content
         # We will encode that edge_vars[(u,v,i)] * self.path_slacks_vars[(i)] = self.gamma_vars[(u,v,i)],
         # assuming self.w_max is a bound for self.path_slacks_vars[(i)]
+        # gamma = x * (scaled) slack: with path length factors the scaled slack can reach w_max * max(factors)
+        gamma_ub = self.w_max * max([1] + list(self.path_length_factors))
         self.gamma_vars = self.solver.add_variables(
             self.edge_indexes,
             name_prefix="gamma",
             lb=0,
-            ub=self.w_max,
+            ub=gamma_ub,
             var_type="continuous",
         )
 
@@ -550,7 +554,7 @@ class kMinPathError(pathmodel.AbstractPathModelDAG):
                     continuous_var=slack_var,
                     product_var=self.gamma_vars[(u, v, i)],
                     lb=0,
-                    ub=self.w_max,
+                    ub=gamma_ub,
                     name=f"12_u={u}_v={v}_i={i}",
                 )
 
